@@ -68,8 +68,8 @@ structure PState where
   trace : List Nat := []          -- reversed
   labels : List (String × Nat × Nat) := []
   skip : Nat := 0                 -- number of enclosing look-ahead predicates
-  memo1 : Std.HashMap (Nat × Nat) (Bool × Nat) := {}
-  memo2 : Std.HashMap (Nat × Nat) (Bool × Nat) := {}
+  memo1 : Std.HashMap (Nat × Nat) (Bool × Nat × Flags) := {}   -- result, end offset, the parse flags it was obtained under
+  memo2 : Std.HashMap (Nat × Nat) (Bool × Nat × Flags) := {}
   cnt : Nat := 0
   switched : Bool := false        -- ghost: a flagsSwitch macro action has run
   pending : Option (Nat × Nat) := none   -- pendingCustomDice: (start offset, byte length)
@@ -186,6 +186,12 @@ def nodeId : PExpr → Nat
   | .seq i _ | .choice i _ | .action i _ _ | .code i _ _ | .andCode i _ | .and_ i _ | .andLogical i _ | .not_ i _ | .any i
   | .lit i _ _ | .cls i _ _ _ _ _ | .star i _ | .plus i _ | .opt i _ | .labeled i _ _ _ | .ref i _ => i
 
+/-- memo lookup: the entry for (offset, node), if it was stored under the same parse flags -/
+def memoGet (m : Std.HashMap (Nat × Nat) (Bool × Nat × Flags)) (key : Nat × Nat) (cfg : Flags) : Option (Bool × Nat) :=
+  match m[key]? with
+  | some (b, endPos, fl) => if fl = cfg then some (b, endPos) else none
+  | none => none
+
 mutual
 
 /-- parseExprWrap: counter, memo lookup, dispatch, memo store -/
@@ -196,12 +202,13 @@ def parseExpr (env : Env) : Nat → PExpr → PState → PState × Bool
     -- ParseExprLimit: the generated engine panics (Parse turns it into an error); nothing further is parsed
     if env.maxCnt > 0 && s.cnt > env.maxCnt then ({ s with errs := true }, false) else
     let key := (s.pos, nodeId e)
-    let hit := if s.skip > 0 then s.memo2[key]? else s.memo1[key]?
+    -- a stored result counts only under the parse flags it was obtained under (`m.flags == parseFlagsKey()`)
+    let hit := memoGet (if s.skip > 0 then s.memo2 else s.memo1) key s.cfg
     match hit with
     | some (b, endPos) => ({ s with pos := endPos }, b)
     | none =>
       let (s', ok) := parseNode env fuel e s
-      let s' := if s'.skip > 0 then { s' with memo2 := s'.memo2.insert key (ok, s'.pos) } else { s' with memo1 := s'.memo1.insert key (ok, s'.pos) }
+      let s' := if s'.skip > 0 then { s' with memo2 := s'.memo2.insert key (ok, s'.pos, s'.cfg) } else { s' with memo1 := s'.memo1.insert key (ok, s'.pos, s'.cfg) }
       (s', ok)
 
 def parseNode (env : Env) : Nat → PExpr → PState → PState × Bool
